@@ -187,14 +187,36 @@ fn check_add(ctx: &mut Ctx, ws: &str, pre: &str, ty: &str, next: &str) {
 
 /// whole-file run of `line` + `next` + a sentinel text line, compared with the reference model
 fn check_e2e(ctx: &mut Ctx, line: &str, next: &str) {
+    check_e2e_variant(ctx, line, next, 0);
+    // the same two lines with mixed line terminators (recognition must not depend on which
+    // terminator a line carries) and behind a byte order mark (it is part of the first line's text)
+    let v = (hash_str(&format!("{line}|{next}")) % 6) as u8;
+    if v >= 1 && v <= 4 {
+        check_e2e_variant(ctx, line, next, v);
+    }
+}
+
+fn check_e2e_variant(ctx: &mut Ctx, line: &str, next: &str, variant: u8) {
     let mut files = Files::new();
-    let src = format!("{line}\n{next}\nlast line\n");
+    let src = match variant {
+        1 => format!("{line}\n{next}\r\nlast line\r\n"),
+        2 => format!("{line}\r\n{next}\nlast line\n"),
+        3 => format!("first\n{line}\r\n{next}\r\nlast line\n"),
+        4 => format!("\u{feff}{line}\n{next}\nlast line\n"),
+        _ => format!("{line}\n{next}\nlast line\n"),
+    };
+    if variant == 4 && !safe_for_e2e(&format!("\u{feff}{line}")) {
+        return;
+    }
+    if variant != 0 {
+        ctx.count("e2e_runs_with_mixed_terminators_or_bom", 1);
+    }
     files.insert("a.txt.txtpp".into(), src.into_bytes());
     let case = ProjectCase::simple(files);
     let res = run_project(ctx, &case);
     ctx.count("e2e_runs", 1);
     for (sig, msg) in judge_project(&case, &res) {
-        ctx.violation(format!("C15:e2e:{sig}"), msg, json!({"kind": "e2e", "line": line, "next": next}));
+        ctx.violation(format!("C15:e2e:{sig}"), msg, json!({"kind": "e2e", "line": line, "next": next, "variant": variant}));
     }
 }
 
@@ -378,7 +400,7 @@ fn replay(ctx: &mut Ctx, case: &Value) {
     match case["kind"].as_str() {
         Some("detect") => check_detect(ctx, case["line"].as_str().unwrap_or("")),
         Some("add") => check_add(ctx, case["ws"].as_str().unwrap_or(""), case["pre"].as_str().unwrap_or(""), case["ty"].as_str().unwrap_or(""), case["next"].as_str().unwrap_or("")),
-        Some("e2e") => check_e2e(ctx, case["line"].as_str().unwrap_or(""), case["next"].as_str().unwrap_or("")),
+        Some("e2e") => check_e2e_variant(ctx, case["line"].as_str().unwrap_or(""), case["next"].as_str().unwrap_or(""), case["variant"].as_u64().unwrap_or(0) as u8),
         Some("e2e-clean") => check_e2e_clean(ctx, case["ws"].as_str().unwrap_or(""), case["pre"].as_str().unwrap_or(""), case["shape"].as_u64().unwrap_or(0) as u8),
         Some("e2e2") => check_e2e_two_pass(ctx, case["head"].as_str().unwrap_or(""), case["cont"].as_str().unwrap_or("")),
         _ => eprintln!("unknown case kind"),
